@@ -40,6 +40,11 @@ Proof.
 Qed.
 Print Assumptions C16_schedule_once_per_iteration.
 
+(* the hypothesis [grad s = gzero] of C16_accumulation holds when training starts: Engine.train clears the gradients of
+   every optimised parameter before entering the loop *)
+Theorem C16_training_starts_clean : train_starts_with_clean_gradients = true.
+Proof. exact starts_clean. Qed.
+
 (* non-vacuity: k = 2, gradients 1 2 4 8, lr 1/2 halved from epoch 3 on: w = -(1/2 * 3/2) - (1/4 * 6) = -9/4 *)
 From Coq Require Import QArith.
 Example C16_example : run_q 2 false 4 [1; 2; 4; 8]%Q (1 # 2)%Q = ((-9, 4)%Z, 4%nat).
